@@ -1,4 +1,5 @@
 import KanidmProofs.Lemmas.FilterIdl
+import KanidmProofs.C02
 /-!
 # C01 — Search returns exactly the matching entries, whatever is indexed
 
@@ -184,6 +185,29 @@ theorem search_layout_independent (S : ValSem) (hS : SubSem S) (w : World)
   intro id _
   exact hsame (w.ent id)
 
+/-- **Index metadata, index statistics and cached resolutions do not matter.** Resolve one
+validated filter `fc` against two index metadata `m₁`, `m₂` (any keys, any slopes — e.g. the
+current one and the one a cached resolution was computed under), optimise with any two pairs of
+sort procedures that merely permute, search two layouts with two thresholds: whenever both
+searches succeed they return the same list. (Composition with C02's `resolveIdx_preserves` and
+`optimise_preserves`.) -/
+theorem search_resolution_independent (S : ValSem) (hS : SubSem S) (w : World)
+    (idx₁ idx₂ : Idx) (h₁ : IdxSound w idx₁) (h₂ : IdxSound w idx₂)
+    (c : AttrConsts) (self : Val) (m₁ m₂ : Nat → IType → Option Nat)
+    (sa₁ sd₁ sa₂ sd₂ : List F → List F)
+    (hp₁ : IsPerm sa₁) (hq₁ : IsPerm sd₁) (hp₂ : IsPerm sa₂) (hq₂ : IsPerm sd₂)
+    (fc : FC) (g₁ g₂ : F) (hg₁ : fc.resolveIdx c self m₁ = some g₁)
+    (hg₂ : fc.resolveIdx c self m₂ = some g₂)
+    (hf₁ : (g₁.optimise sa₁ sd₁).safe = true) (hf₂ : (g₂.optimise sa₂ sd₂).safe = true)
+    (t₁ t₂ : Nat) (lim : Limits) (r₁ r₂ : List Nat)
+    (hr₁ : searchT t₁ S lim w idx₁ (g₁.optimise sa₁ sd₁) = .ok r₁)
+    (hr₂ : searchT t₂ S lim w idx₂ (g₂.optimise sa₂ sd₂) = .ok r₂) :
+    r₁ = r₂ := by
+  refine search_layout_independent S hS w idx₁ idx₂ h₁ h₂ t₁ t₂ lim _ _ hf₁ hf₂ ?_ r₁ r₂ hr₁ hr₂
+  intro e
+  rw [optimise_preserves S e sa₁ sd₁ hp₁ hq₁, optimise_preserves S e sa₂ sd₂ hp₂ hq₂,
+    resolveIdx_preserves S e c self m₁ fc g₁ hg₁, resolveIdx_preserves S e c self m₂ fc g₂ hg₂]
+
 /-! ## 4. a sound index exists for every database and layout (non-vacuity of `IdxSound`) -/
 
 theorem idxOf_sound (w : World) (cfg : Nat → IType → Bool) : IdxSound w (idxOf w cfg) where
@@ -324,5 +348,21 @@ example : search ValSem.std ⟨false, 10, 10⟩ exWorld (idxOf exWorld (fun _ _ 
     (.eq 0 (.str [120]) none) = .error .resourceLimit := by decide +kernel
 /-- the threshold early return is reachable -/
 example : (exFilter.idl (idxOf exWorld exCfg) 5).kind = .thres := by decide +kernel
+
+/-- the same filter before resolution; resolved against "everything indexed with slope 1" and
+against "nothing indexed" it is rewritten differently, yet both searches return the same list -/
+def exFC : FC :=
+  .and [.or [.cnt 0 (.str [97, 98]), .eq 0 (.str [120])], .lessThan 1 (.num 7),
+        .andnot (.eq 0 (.str [97, 98]))]
+
+example :
+    ((exFC.resolveIdx ⟨8, 9⟩ (.num 0) (fun _ _ => some 1)).map (fun g =>
+        searchT 0 ValSem.std ⟨true, 10, 10⟩ exWorld (idxOf exWorld (fun _ _ => true))
+          (g.optimise sortAsc sortDesc)),
+     (exFC.resolveIdx ⟨8, 9⟩ (.num 0) (fun _ _ => none)).map (fun g =>
+        searchT 3 ValSem.std ⟨true, 10, 10⟩ exWorld (idxOf exWorld (fun _ _ => false))
+          (g.optimise sortAsc sortDesc)))
+      = (some (.ok [1]), some (.ok [1])) := by
+  decide +kernel
 
 end Kanidm.Filter
